@@ -62,6 +62,7 @@ fn one_history(coll: &str, cfg: &Cfg, rng: &mut Rng, ops_done: &AtomicU64, rec: 
     }
     // handles held since the last removal (C17): (handle, key)
     let mut held: Vec<(i64, i64)> = Vec::new();
+    let mut struct_bad_at: Option<(usize, usize)> = None;
     // at most one injected callback panic per history (C18), at a random position, in every second history
     let inj_at: Option<usize> = if cfg.inject { Some(rng.below(cfg.len as u64) as usize) } else { None };
     for i in 0..cfg.len {
@@ -109,9 +110,31 @@ fn one_history(coll: &str, cfg: &Cfg, rng: &mut Rng, ops_done: &AtomicU64, rec: 
             continue;
         }
         // every 64 operations: shape, colours, links, slot partition (C02, C11)
-        if i % 64 == 63 {
+        if i % 64 == 63 && struct_bad_at.is_none() {
             let bad = matches!(c.structure(), Some(Err(_))) || c.abs_note().is_some();
-            if bad { rec.push((Op::new("isempty", &[]), None)); ops_done.fetch_add(n_ops, Ordering::Relaxed); return true; }
+            // a broken shape / link / slot partition is a finding by itself; the history is nevertheless continued
+            // for a while, because a wrong *answer* caused by it (a neighbour step over a stale parent link, a lost
+            // entry) is the better failing input for the properties about answers
+            if bad { struct_bad_at = Some((rec.len(), i)); }
+            // sets: with a link broken, walk the whole set by neighbour steps in both directions at once (C09)
+            if bad && is_set && !m.is_empty() {
+                let asc: Vec<(i64, i64)> = m.iter().map(|(k, x)| (*k, x.1)).collect();
+                for down in [false, true] {
+                    let seq: Vec<(i64, i64)> = if down { asc.iter().rev().cloned().collect() } else { asc.clone() };
+                    let start = if down { seq[0].0 } else { seq[0].0 };
+                    let mut h = run!(Op::new("fil", &[start]), None, None);
+                    for (j, (nk, nv)) in seq.iter().enumerate() {
+                        let hh = match h.parse::<i64>() { Ok(x) => x, Err(_) => { ops_done.fetch_add(n_ops, Ordering::Relaxed); return true; } };
+                        run!(Op::new("validx", &[hh]), Some(*nk), Some(nv.to_string()));
+                        let last = j + 1 == seq.len();
+                        h = run!(Op::new(if down { "before" } else { "after" }, &[hh]), Some(*nk), if last { Some("none".to_string()) } else { None });
+                        if j > 4000 { break; }
+                    }
+                }
+            }
+        }
+        if let Some((at, i0)) = struct_bad_at {
+            if i >= i0 + 192 { rec.truncate(at); rec.push((Op::new("isempty", &[]), None)); ops_done.fetch_add(n_ops, Ordering::Relaxed); return true; }
         }
         if expiring {
             // comparisons on keys that are not live at the operation's time (C20)
@@ -155,7 +178,22 @@ fn one_history(coll: &str, cfg: &Cfg, rng: &mut Rng, ops_done: &AtomicU64, rec: 
                     let (hh, hk) = held[rng.below(held.len() as u64) as usize];
                     if let Some(v) = m.get(&hk).map(|x| x.1) { run!(Op::new("validx", &[hh]), Some(hk), Some(v.to_string())); }
                 }
-            } else if roll < p_del { run!(Op::new("delete", &[k]), None, None); m.remove(&k); held.clear(); }
+            } else if roll < p_del {
+                run!(Op::new("delete", &[k]), None, None); m.remove(&k); held.clear();
+                // small sets: after a removal walk the whole set by neighbour steps, one direction at a time (C09:
+                // a repair that leaves one parent field stale shows here before anything else trips over it)
+                if is_set && !m.is_empty() && m.len() <= 48 && rng.chance(1, 2) {
+                    let down = rng.chance(1, 2);
+                    let seq: Vec<(i64, i64)> = if down { m.iter().rev().map(|(k, x)| (*k, x.1)).collect() } else { m.iter().map(|(k, x)| (*k, x.1)).collect() };
+                    let mut h = run!(Op::new("fil", &[seq[0].0]), None, None);
+                    for (j, (nk, nv)) in seq.iter().enumerate() {
+                        let hh = match h.parse::<i64>() { Ok(x) => x, Err(_) => { ops_done.fetch_add(n_ops, Ordering::Relaxed); return true; } };
+                        run!(Op::new("validx", &[hh]), Some(*nk), Some(nv.to_string()));
+                        let last = j + 1 == seq.len();
+                        h = run!(Op::new(if down { "before" } else { "after" }, &[hh]), Some(*nk), if last { Some("none".to_string()) } else { None });
+                    }
+                }
+            }
             else if roll < p_get {
                 let mut kq = rng.range(-1, u);
                 if rng.chance(1, 2) { if let Some((kk, _)) = m.range(kq..).next() { kq = *kk; } }
@@ -199,6 +237,7 @@ fn one_history(coll: &str, cfg: &Cfg, rng: &mut Rng, ops_done: &AtomicU64, rec: 
     }
     if expiring && live_check(None) { ops_done.fetch_add(n_ops, Ordering::Relaxed); return true; }
     ops_done.fetch_add(n_ops, Ordering::Relaxed);
+    if let Some((at, _)) = struct_bad_at { rec.truncate(at); rec.push((Op::new("isempty", &[]), None)); return true; }
     false
 }
 
@@ -206,7 +245,9 @@ fn one_history(coll: &str, cfg: &Cfg, rng: &mut Rng, ops_done: &AtomicU64, rec: 
 pub fn fuzz_suite(out: &mut Out, coll: &str, seed: u64, millis: u64) -> (u64, bool) {
     let ops_done = AtomicU64::new(0);
     let stop = AtomicBool::new(false);
-    let found: Mutex<Option<(Vec<(Op, Option<i64>)>, usize, u32)>> = Mutex::new(None);
+    // the first failing history per *kind* of failing operation (a wrong neighbour step is C09's, a wrong lookup
+    // C04 / C05's, a panic C10's …): each property should get its own failing input, not only the commonest one
+    let found: Mutex<Vec<(String, Vec<(Op, Option<i64>)>, usize, u32)>> = Mutex::new(Vec::new());
     let dir = out.dir.clone();
     if std::env::var("VERIF_FLUSH").is_ok() {
         // crash-locating re-run: the first run died inside this stage (a non-unwinding abort of the real code).
@@ -243,19 +284,21 @@ pub fn fuzz_suite(out: &mut Out, coll: &str, seed: u64, millis: u64) -> (u64, bo
                     let res = std::panic::catch_unwind(std::panic::AssertUnwindSafe(|| one_history(coll, &cfg, &mut r2, ops_done, &mut rec, false)));
                     // (a panic of the real code: the operation that panicked is the last one recorded)
                     let failing = match res { Ok(false) => false, _ => true };
-                    if failing {
+                    if failing && !rec.is_empty() {
+                        let kind = format!("{}{}", rec[rec.len() - 1].0.name, if matches!(res, Err(_)) { "!" } else { "" });
                         let mut f = found.lock().unwrap();
-                        if f.is_none() && !rec.is_empty() { *f = Some((rec, cfg.cap, cfg.variant)); }
-                        stop.store(true, Ordering::Relaxed);
+                        if !f.iter().any(|x| x.0 == kind) { f.push((kind, rec, cfg.cap, cfg.variant)); }
+                        if f.len() >= 4 { stop.store(true, Ordering::Relaxed); }
                     }
                 }
             });
         }
     });
     let n = ops_done.load(Ordering::Relaxed);
-    let f = found.lock().unwrap().take();
+    let fs: Vec<(String, Vec<(Op, Option<i64>)>, usize, u32)> = std::mem::take(&mut *found.lock().unwrap());
     for th in 0..16 { let _ = std::fs::remove_file(format!("{}/fuzz-{}-{}.cur", dir, coll, th)); }
-    if let Some((ops, cap, variant)) = f {
+    let any = !fs.is_empty();
+    for (_, ops, cap, variant) in fs {
         let before = out.oracle_fails;
         let mut r = Runner::new(out, &format!("fuzz-{}", coll), coll, cap, variant);
         r.emit = false; r.oracles = false;
@@ -278,6 +321,12 @@ pub fn fuzz_suite(out: &mut Out, coll: &str, seed: u64, millis: u64) -> (u64, bo
                 r.step(op, *ek);
                 break;
             }
+            // a neighbour step whose result is read next: the step itself is judged (C09), not only the read
+            if i + 1 == last && matches!(op.name.as_str(), "after" | "before" | "fil" | "filby") {
+                r.oracles = true; r.emit = true;
+                r.step(op, *ek);
+                continue;
+            }
             // quiet replay, reference kept up to date
             r.step_light(op);
             r.ops.push(op.clone());
@@ -293,9 +342,8 @@ pub fn fuzz_suite(out: &mut Out, coll: &str, seed: u64, millis: u64) -> (u64, bo
             r.fail(prop, "an answer along a long random history differs from the reference (high-volume differential run)", "the reference answer", "see the last operation of the history");
         }
         r.end();
-        return (n, true);
     }
-    (n, false)
+    (n, any)
 }
 
 // ------------------------------------------------------------------------------------------------
